@@ -330,6 +330,12 @@ class Ev:
             return l | r
         if isinstance(op, ast.BitXor):
             return l ^ r
+        if isinstance(op, ast.MatMult):
+            return l @ r
+        if isinstance(op, ast.LShift):
+            return l << r
+        if isinstance(op, ast.RShift):
+            return l >> r
         raise Undecided("operator " + type(op).__name__)
 
     def ev(self, e):
